@@ -400,7 +400,10 @@ func ruleMaturityAtoms(c *report.Ctx, only map[string]bool) {
 		if only != nil && !only[field] {
 			continue
 		}
-		stores := fieldStores(sab, bd, field)
+		var stores []ssa.Instruction
+		for _, g := range withLiterals(sab) { // the scan's body may live in a callback literal
+			stores = append(stores, fieldStores(g, bd, field)...)
+		}
 		// ignore stores in the initialisation loop (composite literal of a fresh allocation)
 		var real []ssa.Instruction
 		for _, s := range stores {
@@ -429,7 +432,7 @@ func ruleMaturityAtoms(c *report.Ctx, only map[string]bool) {
 				if a.Op != token.GEQ || !isConfs(a.X) {
 					return false
 				}
-				_, isPar := stripConv(a.Y).(*ssa.Parameter)
+				_, isPar := an.ResolveCell(stripConv(a.Y)).(*ssa.Parameter)
 				return isPar
 			}) {
 				missing = append(missing, "confs >= minConf")
